@@ -10,6 +10,7 @@ import (
 	"strconv"
 	"strings"
 	"syscall"
+	"unsafe"
 )
 
 type Sys struct {
@@ -28,6 +29,26 @@ var Syscalls = []Sys{
 func Call(nr uintptr, a [6]uint64) syscall.Errno {
 	_, _, e := syscall.RawSyscall6(nr, uintptr(a[0]), uintptr(a[1]), uintptr(a[2]), uintptr(a[3]), uintptr(a[4]), uintptr(a[5]))
 	return e
+}
+
+// BlockSeccompSyscall installs, on the calling thread only and without the library under test, a filter that answers
+// the seccomp(2) system call with ERRNO(ENOSYS) and allows everything else - what a container profile that predates
+// seccomp(2) does. It sets no_new_privs first (needed without CAP_SYS_ADMIN).
+func BlockSeccompSyscall() error {
+	if _, _, e := syscall.RawSyscall6(syscall.SYS_PRCTL, 38 /* PR_SET_NO_NEW_PRIVS */, 1, 0, 0, 0, 0); e != 0 {
+		return e
+	}
+	prog := []syscall.SockFilter{
+		{Code: 0x20, K: 0},                 // ld nr
+		{Code: 0x15, Jt: 0, Jf: 1, K: 317}, // jeq __NR_seccomp (x86_64)
+		{Code: 0x06, K: 0x00050000 | 38},   // ret ERRNO(ENOSYS)
+		{Code: 0x06, K: 0x7fff0000},        // ret ALLOW
+	}
+	fprog := syscall.SockFprog{Len: uint16(len(prog)), Filter: &prog[0]}
+	if _, _, e := syscall.RawSyscall6(syscall.SYS_PRCTL, 22 /* PR_SET_SECCOMP */, 2 /* SECCOMP_MODE_FILTER */, uintptr(unsafe.Pointer(&fprog)), 0, 0, 0); e != 0 {
+		return e
+	}
+	return nil
 }
 
 func Gettid() int {
